@@ -144,7 +144,6 @@ theorem funBase_post (h0 : Heap) (as : List Nat) (hv : ∀ a ∈ as, a < h0.next
 def freshShape (op : Op) (p : Payload) (as : List Nat) : Bool :=
   match op with
   | .forall_ | .exists_ => (match p with | .qvars (_ :: _) => true | _ => false)
-  | .div => as.length != 1
   | _ => true
 
 end PySMT.TheoryHeap
